@@ -694,7 +694,8 @@ def rule_descriptor_cache(check, rule, rule_weak):
             if same is True:
                 ok = v == selft
             else:
-                ok = v[0] in ('C', 'M') and bound in (v[2] if v[0] == 'C' else v[3]) or bound2 in (v[2] if v[0] == 'C' else v[3])
+                argv_ = (v[2] if v[0] == 'C' else v[3]) if v[0] in ('C', 'M') else ()
+                ok = v[0] in ('C', 'M') and (bound in argv_ or bound2 in argv_)
             # the entry left in the cache for this binding is the object returned (earlier stores under the same key are
             # overwritten: whether publishing them matters is a concurrency question, C17.R3)
             ok_store = bool(stores) and all(s_.args[0] in (bound, bound2) for s_ in stores) and stores[-1].args[1] == v
@@ -850,3 +851,108 @@ def rule_stacked_anchor_getters(check, rule):
         check.holds(rule, st, 'an inner selection reaches the bound function one way only (%s)' % ('resolved names' if unions else 'its getter'), key=key)
     else:
         check.inconclusive(rule, st, '_merge_other neither unions name sets nor composes getters', key=key)
+
+
+def rule_private_name_sets(check, rule):
+    """C18.R2c: `_merge_other` adds the inner translator's names to the outer one's sets *in place* (`|=`).  The sets a
+    translator starts from must therefore be its own: built with `set(<names>)` in __init__.  A set that is the very
+    object the caller passed -- another translator's `posoarg_names` handed over by its getter, for one -- would be
+    edited for both, and what a translator accepts would depend on what was stacked on it later."""
+    repo = check.repo
+    init = repo.func(PT + '.__init__')
+    mo = repo.func(PT + '._merge_other')
+    check.analysed(init)
+    inplace = [n for n in ast.walk(mo.node) if isinstance(n, ast.AugAssign) and isinstance(n.target, ast.Attribute)
+               and isinstance(n.target.value, ast.Name) and n.target.value.id == mo.params()[0][0]]
+    inplace += [n for n in ast.walk(mo.node) if isinstance(n, ast.Call) and isinstance(n.func, ast.Attribute) and n.func.attr in ('update', 'add')
+                and isinstance(n.func.value, ast.Attribute) and 'names' in n.func.value.attr]
+    attrs = set()
+    for n in inplace:
+        t = n.target if isinstance(n, ast.AugAssign) else n.func.value
+        attrs.add(t.attr)
+    if not attrs:
+        check.holds(rule, site_of(mo, mo.node), '_merge_other does not edit name sets in place', key='name-sets|no-inplace', nontrivial=False)
+        return
+    selfn = init.params()[0][0]
+    for attr in sorted(attrs):
+        key = '%s|private-set|%s' % (init.key, attr)
+        assigns = [n for n in ast.walk(init.node) if isinstance(n, ast.Assign) and any(
+            isinstance(t, ast.Attribute) and t.attr == attr and isinstance(t.value, ast.Name) and t.value.id == selfn for t in n.targets)]
+        if not assigns:
+            check.inconclusive(rule, site_of(init, init.node), 'initial value of self.%s not found' % attr, key=key)
+            continue
+        v = assigns[-1].value
+        fresh = isinstance(v, (ast.Set, ast.SetComp)) or (isinstance(v, ast.Call) and isinstance(v.func, ast.Name) and v.func.id in ('set', 'frozenset'))
+        if fresh:
+            check.holds(rule, site_of(init, assigns[-1]), 'self.%s starts as a set of its own (%s)' % (attr, norm(v)[:30]), key=key)
+            continue
+        # a helper: does any of its returns hand its parameter back?
+        passthrough = None
+        if isinstance(v, ast.Call) and isinstance(v.func, ast.Name):
+            r = repo.resolve_global(init.module, v.func.id)
+            if r is not None and r[0] == 'func':
+                h = r[1]
+                hp = h.params()[0]
+                for ret in [x for x in ast.walk(h.node) if isinstance(x, ast.Return) and x.value is not None]:
+                    if isinstance(ret.value, ast.Name) and ret.value.id in hp:
+                        passthrough = (h, ret)
+        if passthrough is not None or isinstance(v, ast.Name):
+            where = passthrough[1] if passthrough else assigns[-1]
+            fi_ = passthrough[0] if passthrough else init
+            check.violation(rule, site_of(fi_, where), 'self.%s can be the very set object the caller passed (%s), and _merge_other later edits it in '
+                            'place: the names of a modifier stacked on top leak into the translator the set came from'
+                            % (attr, norm(v)[:40]), key=key,
+                            witness="kept = kwoargs('c')(f); posoargs('a')(kept); kept(a=1, b=2, c=3) raises TypeError")
+        else:
+            check.inconclusive(rule, site_of(init, assigns[-1]), 'initial value of self.%s not understood: %s' % (attr, norm(v)[:60]), key=key)
+
+
+def rule_getter_protocol(check, rule):
+    """C18.R4c: the bound copy is derived from the object `__get__` was called on.  `__get__` hands that object to the getter
+    as `original=self`; the default getter must pass what it receives on to the constructor (`type(self)(func, **kwargs)`),
+    not substitute the object it was created for: with stacked modifiers the getters of the inner translators run too, and
+    an inner `self` lacks what was put on the outer object afterwards (a declared forger, for one)."""
+    repo = check.repo
+    get = repo.func('_util:OverrideableDataDesc.__get__')
+    init = repo.func('_util:OverrideableDataDesc.__init__')
+    check.analysed(get)
+    check.analysed(init)
+    gself = get.params()[0][0]
+    calls = [n for n in ast.walk(get.node) if isinstance(n, ast.Call) and isinstance(n.func, ast.Attribute) and n.func.attr == 'custom_getter']
+    key = 'getter-protocol|get'
+    if not calls:
+        check.inconclusive(rule, site_of(get, get.node), '__get__ does not call self.custom_getter', key=key)
+    for c in calls:
+        kw = dict((k.arg, k.value) for k in c.keywords if k.arg)
+        if isinstance(kw.get('original'), ast.Name) and kw['original'].id == gself:
+            check.holds(rule, site_of(get, c), '__get__ passes itself to the getter as original=', key=key)
+        else:
+            check.violation(rule, site_of(get, c), '__get__ calls the getter without original=self: the bound copy is no longer derived from the '
+                            'object the attribute was looked up on', key=key,
+                            witness='forwards_to_function over two stacked modifiers: the bound method loses the declared forger')
+    # the default getter
+    key = 'getter-protocol|default-getter'
+    nested = [n for n in ast.walk(init.node) if isinstance(n, (ast.FunctionDef, ast.Lambda)) and n is not init.node]
+    found = False
+    for fn in nested:
+        ctor = [c for c in ast.walk(fn) if isinstance(c, ast.Call) and isinstance(c.func, ast.Call) and norm(c.func.func) == 'type']
+        if not ctor:
+            continue
+        found = True
+        kwparam = fn.args.kwarg.arg if fn.args.kwarg else None
+        c = ctor[0]
+        passes = any(k.arg is None and isinstance(k.value, ast.Name) and k.value.id == kwparam for k in c.keywords) if kwparam else False
+        orig = [k for k in c.keywords if k.arg == 'original']
+        if passes and not orig:
+            check.holds(rule, site_of(init, c), 'the default getter builds type(self)(func, **<what it was given>)', key=key)
+        elif orig and not (isinstance(orig[0].value, ast.Name) and orig[0].value.id in [a.arg for a in fn.args.args + fn.args.kwonlyargs]):
+            check.violation(rule, site_of(init, c), 'the default getter passes original=%s, the object it was created for, instead of the one __get__ '
+                            'handed over: under stacked modifiers the bound copy is derived from an inner translator' % norm(orig[0].value), key=key,
+                            witness='forwards_to_function over two stacked modifiers: the bound method loses the declared forger')
+        elif not passes:
+            check.violation(rule, site_of(init, c), 'the default getter does not pass the keyword arguments it receives (original=...) on to the '
+                            'constructor', key=key)
+        else:
+            check.holds(rule, site_of(init, c), 'the default getter forwards original= as received', key=key)
+    if not found:
+        check.inconclusive(rule, site_of(init, init.node), 'default getter not found in OverrideableDataDesc.__init__', key=key)
